@@ -578,6 +578,7 @@ func (w *Worker) visitInstr(fr *frame, instr ssa.Instruction) continuation {
 		if m == nil {
 			fr.rtPanic(instr, "assignment to entry in nil map")
 		}
+		w.noteMap(m, true)
 		w.mapInsert(m, fr.get(instr.Key), fr.get(instr.Value))
 
 	case *ssa.TypeAssert:
@@ -893,6 +894,7 @@ func (w *Worker) lookup(fr *frame, instr *ssa.Lookup) Value {
 		w.setIdxSigned(instr.Index.Type())
 		return x.At(w.boundsIndex(fr, instr, idx, x.Len()))
 	case *Map:
+		w.noteMap(x, false)
 		key := fr.get(instr.Index)
 		var v Value
 		ok := false
